@@ -28,6 +28,7 @@ def _init_z3():
     workers, and declarations made at import would change the solver state seen by the cases of the other modules"""
     global I, POW2, BITLEN, RES_NAME, RES_NUM
     I = z3.IntSort()
+    pysym.POW2_FUNCS.add("pow2")
     POW2 = z3.Function("pow2", I, I)              # pow2(k) denotes the Python value 2**k for an int k >= 0
     BITLEN = z3.Function("bit_length", I, I)      # bit_length(x) denotes x.bit_length() for an int x >= 0
     RES_NAME = z3.Function("res.name", I, I)      # name of resource r (strings are compared by equality only: a name is its identity)
